@@ -19,6 +19,8 @@ import (
 
 	"github.com/mycoria/mycoria/config"
 	"github.com/mycoria/mycoria/frame"
+	"github.com/mycoria/mycoria/peering"
+	"github.com/mycoria/mycoria/state"
 )
 
 var pool = kit.RoutablePool("c05", 2)
@@ -39,6 +41,10 @@ type scenario struct {
 	frames  []fspec
 	reverse bool // B sends to A
 	seg     int  // > 0: the transport hands at most seg bytes to one read
+	// wrapIn > 0: the link has carried almost 2^32 frames in both directions: the
+	// sender's regular sequence wraps with its wrapIn-th next frame (the reverse
+	// direction 200 frames later).
+	wrapIn int
 	// build produces the byte strings fed to the receiver from the held link frames
 	// (and the held frames of the reverse direction, if any).
 	build  func(held [][]byte, rev [][]byte) [][]byte
@@ -94,6 +100,22 @@ func run(t *testing.T, sc scenario) (res result) {
 		if sc.reverse {
 			src, dst, link, rlink = b, a, w.LinkB, w.LinkA
 			fromSrcIsA = false
+		}
+		if sc.wrapIn > 0 {
+			// a long-lived link: counters of both directions just below the 32-bit wrap
+			// (set through the session's own test helper on the real link sessions).
+			ss, ds := peering.VerifLinkEncSession(link), peering.VerifLinkEncSession(rlink)
+			if ss == nil || ds == nil {
+				panic("harness: link session not accessible")
+			}
+			hs := &state.EncryptionSessionTestHelper{EncryptionSession: ss}
+			hd := &state.EncryptionSessionTestHelper{EncryptionSession: ds}
+			fwd := uint32(0xFFFFFFFF) - uint32(sc.wrapIn) + 1
+			bwd := uint32(0xFFFFFFFF) - 200
+			hs.ReglSetOut(fwd)
+			_ = hd.ReglSeq().Check(fwd)
+			hd.ReglSetOut(bwd)
+			_ = hs.ReglSeq().Check(bwd)
 		}
 		var held, rev [][]byte
 		var allWire [][]byte
@@ -207,7 +229,7 @@ func cat(chunks ...[]byte) [][]byte { return chunks }
 func TestC05(t *testing.T) {
 	env := kit.GetEnv()
 	rep := kit.NewReport("C05", env)
-	rep.Rule = "one real established link per execution (real handshake, adversary-owned stream); frames handed to the link: message types {signed priority, regular encrypted, session data} x sizes {1,45,560,1500,9000,10000}; faults on the held link frames: every bit of every byte of a link frame (length prefix, header, ciphertext, MAC; large frames: all header/MAC bits + one bit per ciphertext byte), truncation at every offset (quick: every offset of a small frame), all words of length <= 2 (thorough 3) over {dup i, swap i/i+1, drop i}, injection of 1..64 arbitrary bytes at a frame boundary, well-framed garbage with every length prefix 0..40 and 100, splice / reflection of frames of the reverse direction (with sequence numbers the receiver has and has not seen), loss bursts of g-1 frames followed by a replay of the frame before the burst (g around the 64-frame window edge; thorough 1..70), the same frame delivered 3 times; both directions; afterwards two intact frames; non-trivial = any fault; distinct = distinct (frames, fault); states = distinct (delivered multiset, post-frames-arrived, closing) outcomes"
+	rep.Rule = "one real established link per execution (real handshake, adversary-owned stream); frames handed to the link: message types {signed priority, regular encrypted, session data} x sizes {1,45,560,1500,9000,10000}; faults on the held link frames: every bit of every byte of a link frame (length prefix, header, ciphertext, MAC; large frames: all header/MAC bits + one bit per ciphertext byte), truncation at every offset (quick: every offset of a small frame), all words of length <= 2 (thorough 3) over {dup i, swap i/i+1, drop i}, injection of 1..64 arbitrary bytes at a frame boundary, well-framed garbage with every length prefix 0..40 and 100, splice / reflection of frames of the reverse direction (with sequence numbers the receiver has and has not seen), loss bursts of g-1 frames followed by a replay of the frame before the burst (g around the 64-frame window edge; thorough 1..70), the same frame delivered 3 times; the same kinds of faults (reflection, swaps, duplicates, loss, replay, forged frames with sequence numbers {0,1,2,255,256,2^32-1} at three positions) on a link whose counters stand 1,2,3,5 or 100 frames before the 32-bit wrap; both directions; afterwards two intact frames; non-trivial = any fault; distinct = distinct (frames, fault); states = distinct (delivered multiset, post-frames-arrived, closing) outcomes"
 	rep.Assumptions = []string{
 		"faults that destroy the stream framing (truncation, length-prefix flips, partial injections) are judged by the safety oracle only: resynchronisation of a byte stream is not something the statement promises",
 		"a reader panic is observed through the module manager's worker-panic alert",
@@ -513,6 +535,64 @@ func TestC05(t *testing.T) {
 					return cat(h[0], h[1], own)
 				}}
 			judge(sc, run(t, sc))
+		}
+	}
+	// ---- the same kinds of faults on a link whose sequence numbers are about to wrap
+	// (it has carried almost 2^32 frames): the key rollover must not be triggered,
+	// lost or doubled by anything but the sender's own wrap.
+	garbageSeq := func(seq uint32, fill byte) []byte {
+		g := make([]byte, 60)
+		for i := range g {
+			g[i] = fill
+		}
+		g[0], g[1], g[2], g[3] = 0, 60, 1, 100
+		g[4], g[5], g[6], g[7] = byte(seq>>24), byte(seq>>16), byte(seq>>8), byte(seq)
+		return g
+	}
+	four := []fspec{{frame.NetworkTraffic, 45}, {frame.SessionData, 100}, {frame.SessionData, 30}, {frame.RouterPing, 50}}
+	for _, rv := range []bool{false, true} {
+		for _, wrapIn := range []int{1, 2, 3, 5, 100} {
+			type nw struct {
+				name   string
+				expect int
+				build  func(h, r [][]byte) [][]byte
+			}
+			cases := []nw{
+				{"honest", 4, func(h, r [][]byte) [][]byte { return h }},
+				{"reflect-own-frame-first", 4, func(h, r [][]byte) [][]byte { return cat(r[len(r)-1], h[0], h[1], h[2], h[3]) }},
+				{"reflect-own-frame-between", 4, func(h, r [][]byte) [][]byte { return cat(h[0], r[len(r)-1], h[1], r[0], h[2], h[3]) }},
+				// (a frame of the old key that arrives after one of the new key is lost by
+				// design, so swaps are judged by the safety oracles only)
+				{"swap-1-2", -1, func(h, r [][]byte) [][]byte { return cat(h[0], h[2], h[1], h[3]) }},
+				{"swap-0-1", -1, func(h, r [][]byte) [][]byte { return cat(h[1], h[0], h[2], h[3]) }},
+				{"dup-each", 4, func(h, r [][]byte) [][]byte { return cat(h[0], h[0], h[1], h[1], h[2], h[2], h[3], h[3]) }},
+				{"drop-1", 3, func(h, r [][]byte) [][]byte { return cat(h[0], h[2], h[3]) }},
+				{"replay-first-at-end", 4, func(h, r [][]byte) [][]byte { return cat(h[0], h[1], h[2], h[3], h[0]) }},
+			}
+			for _, gs := range []uint32{0, 1, 2, 255, 256, 0xFFFFFFFF} {
+				gs := gs
+				for pos := 0; pos <= 2; pos++ {
+					pos := pos
+					cases = append(cases, nw{fmt.Sprintf("forged-frame-seq%d-at%d", gs, pos), 4, func(h, r [][]byte) [][]byte {
+						g := garbageSeq(gs, 0x5a)
+						out := [][]byte{}
+						for i, x := range h {
+							if i == pos {
+								out = append(out, g)
+							}
+							out = append(out, x)
+						}
+						return out
+					}})
+				}
+			}
+			for _, c := range cases {
+				if !mine() {
+					continue
+				}
+				sc := scenario{name: fmt.Sprintf("near-wrap/%s@wrap-in-%d-rev%v", c.name, wrapIn, rv), frames: four, reverse: rv, expect: c.expect, wrapIn: wrapIn, build: c.build}
+				judge(sc, run(t, sc))
+			}
 		}
 	}
 	// ---- splice of a reverse-direction frame between the two frames.
